@@ -150,8 +150,8 @@ def table_closure(which):
     return dict(fields='; '.join(fields) + ';', init=', '.join(init), use=use)
 
 
-def table_defines():
-    return [f'NV_CLO_{w.upper()}_FIELDS={table_closure(w)["fields"]}' for w in ('predict', 'split')]
+def table_defines(which):
+    return lambda: f'NV_CLO_{which.upper()}_FIELDS={table_closure(which)["fields"]}'
 
 
 def table_fns(which):
@@ -436,6 +436,29 @@ def affine_fit_fn():
     return Fn('affine_fit_feature', 'src/wlearner/affine.cpp', 'do_fit', flt='affine_wlearner_t::do_fit', lambda_index=0, captures=True, types=types, calls=calls, members=members)
 
 
+ACC_CPP = 'src/wlearner/accumulator.cpp'
+ACC_PAIR = r'std::pair<double, long>'
+ACC_TYPES = [(r'^nano::wlearner::accumulator_t$|^nano::table_wlearner_t::cache_t$', 'struct nv_accum'),
+             (r'^Eigen::ArrayWrapper<Eigen::Map<', 'struct nv_av'),
+             (r'^std::vector<' + ACC_PAIR, 'struct nv_dvec'),
+             (r'^Eigen::CwiseBinaryOp<Eigen::internal::scalar_quotient_op<double(, double)?>, (const )?Eigen::ArrayWrapper<', 'struct nv_ev')]
+ACC_CALLS = [(r'^sort\|', 'nv_dvec_sort({0}, {1}, &deltas)'), (r'^max\|const double &\(const double &, const double &\)', 'nv_max_d({0}, {1})')]
+ACC_MEMBERS = [(r'^bins\|nano::wlearner::accumulator_t', '{self}->bins'),
+               (r'^x0\|nano::wlearner::accumulator_t', '(*nv_acc_x({self}, {0}, 0))'), (r'^x1\|nano::wlearner::accumulator_t', '(*nv_acc_x({self}, {0}, 1))'),
+               (r'^x2\|nano::wlearner::accumulator_t', '(*nv_acc_x({self}, {0}, 2))'),
+               (r'^r1\|nano::wlearner::accumulator_t', 'nv_acc_r({self}, {0}, 1)'), (r'^r2\|nano::wlearner::accumulator_t', 'nv_acc_r({self}, {0}, 2)'),
+               (r'^rx\|nano::wlearner::accumulator_t', 'nv_acc_r({self}, {0}, 3)'),
+               (r'^reserve\|std::vector<' + ACC_PAIR, '@drop'), (r'^emplace_back\|std::vector<' + ACC_PAIR, 'nv_dvec_push({self}, {0}, {1}, self)'),
+               (r'^update\|nano::wlearner::accumulator_t( \*)?\|#2', 'acc_update'),
+               (r'^begin\|std::vector<' + ACC_PAIR, '((uint64_t)0)'), (r'^end\|std::vector<' + ACC_PAIR, '{self}->n')]
+
+
+def acc_fn(cname, tu, name, flt, **kw):
+    cw = eigencw.hook('struct nv_av', scalars=True)
+    return Fn(cname, tu, name, flt=flt, self_struct='struct nv_accum', types=ACC_TYPES, calls=ACC_CALLS, members=ACC_MEMBERS,
+              stmt_hooks=[cw], hooks=[cw.reduce_hook(), cw.value_hook('struct nv_ev')], **kw)
+
+
 def fit_loop_hook():
     """iterator.loop(samples, [&](feature, tnum, values) {..}) inside a do_fit: the callback is extracted separately; the stub
     gets the samples and the captured caches (named literally: the capture list of the callback is checked to contain them)"""
@@ -520,6 +543,29 @@ def hinge_lemmas():
                about='vacuity guard (must be sat)', source=src, expect='sat')]
 
 
+def accumulator_lemmas():
+    """over the reals: what ties the accumulator terms proved in accum.h to the property ("the predictions reproduce that RSS")"""
+    import os
+    src = {'file': os.path.join(astload.VERIF, 'specs/C10/spec.py')}
+    out = [VC('lemma/bin RSS, generic output: c = r1/x0, x0 > 0  =>  r2 - 2*c*r1 + x0*c^2 == r2 - r1^2/x0',
+              '(declare-const r1 Real)(declare-const r2 Real)(declare-const x0 Real)\n(define-fun c () Real (/ r1 x0))\n(assert (> x0 0.0))\n'
+              '(assert (not (= (+ (- r2 (* 2.0 c r1)) (* x0 c c)) (- r2 (/ (* r1 r1) x0)))))',
+              about='per output, the residual sum of squares of predicting the stored constant r1/x0 for the x0 samples of a bin (sum of (res - c)^2 = r2 - 2 c r1 + x0 c^2) is the summand of cache_t::score(bin)', source=src)]
+    bounded = []
+    for n in (1, 2, 3):
+        r1 = [f'a{o}' for o in range(n)]
+        r2 = [f'b{o}' for o in range(n)]
+        decl = ''.join(f'(declare-const {v} Real)' for v in r1 + r2) + '(declare-const x0 Real)\n(assert (> x0 0.0))\n'
+        add = lambda ts: ts[0] if len(ts) == 1 else '(+ ' + ' '.join(ts) + ')'
+        score = add([f'(- {b} (/ (* {a} {a}) x0))' for a, b in zip(r1, r2)])
+        gain = f'(/ (- {add([f"(* {a} {a})" for a in r1])}) x0)'
+        bounded.append(VC(f'lemma/score(bin) == rss_zero(bin) + gain(bin) for {n} output(s)', decl + f'(assert (not (= {score} (+ {add(r2)} {gain}))))',
+                          about='SUM_o (r2 - r1^2/x0) == SUM_o r2 + (-(SUM_o r1^2)/x0): score_dense and score_kbest account the same RSS (sum expanded for a bounded number of outputs)', source=src))
+    bounded.append(VC('lemma/canary: for 2 outputs the square of the sum differs from the sum of the squares', '(declare-const a0 Real)(declare-const a1 Real)\n'
+                      '(assert (not (= (* (+ a0 a1) (+ a0 a1)) (+ (* a0 a0) (* a1 a1)))))', about='the gain is a reduction of squares, not the square of a reduction (must be sat)', source=src, expect='sat'))
+    return out, bounded
+
+
 def targs(*want):
     return lambda d: astload.template_args(d) == list(want)
 
@@ -548,8 +594,9 @@ def build(tier):
     f = stump_fns()
     targets.append(Target('stump_do_split', [f['do_split'], f['split'], f['split_lambda'], f['feature']], SH))
     TH = 'specs/C10/table.h'
-    targets.append(Target('table_do_predict', table_fns('predict'), TH, defines=table_defines()))
-    targets.append(Target('table_do_split', table_fns('split'), TH, defines=table_defines()))
+    # (lazy: the closure layout is read from clang's AST inside the target's worker)
+    targets.append(Target('table_do_predict', lambda: table_fns('predict'), TH, enforce='table_do_predict', defines=[table_defines('predict'), table_defines('split')]))
+    targets.append(Target('table_do_split', lambda: table_fns('split'), TH, enforce='table_do_split', defines=[table_defines('predict'), table_defines('split')]))
     ftypes = [(r'^nano::hashes_t$|tensor_t<nano::tensor_vector_storage_t, unsigned long, 1>', 'struct nv_t1u'),
               (r'Matrix<unsigned long, -1, 1, 0.*>::Scalar$', 'uint64_t')]
     fk = dict(types=ftypes, uf_float=False, kinds=('FunctionDecl',),
@@ -586,9 +633,20 @@ def build(tier):
         targets.append(Target(f'{cls}_fit_sweep', [f['sweep']], 'specs/C10/fit.h'))
     AFF = 'src/wlearner/affine.cpp'
     targets.append(Target('affine_fit_feature', [affine_fit_fn()], 'specs/C10/fit_affine.h',
-                          defines=[f'bin_affine={file_constant(AFF, "bin_affine")}', f'bin_missed={file_constant(AFF, "bin_missed")}']))
+                          defines=[lambda: f'bin_affine={file_constant(AFF, "bin_affine")}', lambda: f'bin_missed={file_constant(AFF, "bin_missed")}']))
     for cls in ('stump', 'hinge', 'affine'):
         targets.append(Target(f'{cls}_do_fit', [fit_top_fn(cls)], 'specs/C10/fit_top.h'))
+    AH = 'specs/C10/accum.h'
+    # (deduced `auto` return types: the C return type is given here; the returned expression itself is extracted)
+    targets.append(Target('acc_sort', [acc_fn('acc_sort', ACC_CPP, 'sort', 'accumulator_t::sort', ret='struct nv_dvec')], AH))
+    targets.append(Target('tbl_score', [acc_fn('tbl_score', TABLE_CPP, 'score', 'cache_t::score', ret='double')], AH))
+    AFFC = 'src/wlearner/affine.cpp'      # a TU that instantiates both update templates
+    npar = lambda k: (lambda d: len(astload.param_types(d)) == k and len(astload.template_args(d)) == 1)      # the instantiation, not the pattern
+    targets.append(Target('acc_update', [acc_fn('acc_update', AFFC, 'update', 'accumulator_t::update', select=npar(2))], AH))
+    targets.append(Target('acc_update_x', [acc_fn('acc_update_x', AFFC, 'update', 'accumulator_t::update', select=npar(3)),
+                                           acc_fn('acc_update', AFFC, 'update', 'accumulator_t::update', select=npar(2))], AH))
+    for nm, rt in (('rss_zero', 'double'), ('rss_constant', 'double'), ('fit_constant', 'struct nv_ev')):
+        targets.append(Target(f'acc_{nm}', [acc_fn(f'acc_{nm}', ACC_CPP, nm, f'accumulator_t::{nm}', ret=rt)], AH))
     MH = 'specs/C10/trymerge.h'
     t = try_merge_fns()
     targets.append(Target('base_try_merge', [t['base']], MH))
@@ -598,7 +656,7 @@ def build(tier):
     t = try_merge_fns()
     targets.append(Target('affine_try_merge', [t['affine'], t['helper'], t['feature']], MH))
     return {
-        'targets': targets, 'vcs': hinge_lemmas(),
+        'targets': targets, 'vcs': hinge_lemmas() + accumulator_lemmas()[0], 'bounded': accumulator_lemmas()[1],
         'decided': [
             'loop_scalar / loop_sclass / loop_mclass: op(i, value) is called only for 0 <= i < samples.size(), in increasing i, only for given values (finite / >= 0 / first label >= 0), with the value of sample i, and for every given value exactly once (ghost sample position); the enclosing functions hand the given samples and feature to select_iterator_t::loop once, with the callback overload of the right value kind',
             'stump: do_predict adds tables[value < threshold ? 0 : 1] to outputs row i exactly once for a given value and nothing for a missing one; split / do_split assign group (value < threshold ? 0 : 1) to samples(i) under the same rule with the same feature and the member threshold; cluster has dataset.samples() x 2',
@@ -674,6 +732,9 @@ def replay(rp):
         # feature with tied values (real learner, RSS criterion; the clause is evaluated on its threshold and predictions)
         # (the uninterpreted mid-point not separating v1 from v2 is real for IEEE doubles: consecutive doubles 1, 1 + ulp, 1 + 2 ulp)
         scenarios = [['ties', rp['target'].split('_')[0]], ['ties', rp['target'].split('_')[0], 'adjacent']]
+    elif rp['target'] in ('acc_sort', 'tbl_score', 'tbl_score_kbest', 'tbl_score_dense'):
+        # a wrong gain / score of a label set: a discrete-step table on a 2-output target whose residual sums cancel across the outputs
+        scenarios = [['dstep']]
     if scenarios is None:
         out['note'] = 'no native driver for this obligation: the replay file carries the verifier output only'
         return out
